@@ -578,6 +578,24 @@ pub fn sites() -> Vec<Site> {
         let files = (0..n).map(|i| (name(i), format!("#include \"{}\"\n#d8 1\n", name(i + 1)).into_bytes())).collect();
         Some(Gen { files, expect: Expect::None })
     }));
+    // the files of the cycle live in a sub-directory: every name is relative to the including file
+    v.push(site("cycle-include-in-subdirectory", Cycle, "main.asm includes lib/c1.asm, which includes c2.asm ... the last one includes c1.asm", |m| {
+        let n = m.n();
+        let mut files = vec![("main.asm".to_string(), b"#include \"lib/c1.asm\"\n#d8 1\n".to_vec())];
+        for i in 1..=n {
+            files.push((format!("lib/c{}.asm", i), format!("#include \"c{}.asm\"\n#d8 1\n", i % n + 1).into_bytes()));
+        }
+        Some(Gen { files, expect: Expect::None })
+    }));
+    v.push(site("cycle-include-through-parent-directory", Cycle, "main.asm includes lib/c1.asm ... the last one includes ../main.asm", |m| {
+        let n = m.n();
+        let mut files = vec![("main.asm".to_string(), b"#include \"lib/c1.asm\"\n#d8 1\n".to_vec())];
+        for i in 1..=n {
+            let next = if i == n { "../main.asm".to_string() } else { format!("c{}.asm", i + 1) };
+            files.push((format!("lib/c{}.asm", i), format!("#include \"{}\"\n#d8 1\n", next).into_bytes()));
+        }
+        Some(Gen { files, expect: Expect::None })
+    }));
     v.push(site("cycle-const", Cycle, "c0 = c1 + 1 ... c<len-1> = c0 + 1 / #d8 c0", |m| {
         let n = m.n();
         let mut s = String::new();
@@ -805,6 +823,9 @@ fn shell_line(lim: &Limits) -> String {
 fn write_files(dir: &std::path::Path, files: &[(String, Vec<u8>)]) -> std::io::Result<()> {
     std::fs::create_dir_all(dir)?;
     for (n, c) in files {
+        if let Some(parent) = dir.join(n).parent() {
+            std::fs::create_dir_all(parent)?;
+        }
         std::fs::write(dir.join(n), c)?;
     }
     Ok(())
